@@ -7,6 +7,7 @@ import (
 	"time"
 
 	"github.com/skycoin/skycoin/src/daemon"
+	"github.com/skycoin/skycoin/src/visor/dbutil"
 
 	"verifsim/model"
 	"verifsim/sim"
@@ -410,6 +411,10 @@ func (s *syncSim) step() {
 					var g daemon.GetBlocksMessage
 					if _, err := g.Decode(b); err == nil && g.LastBlock == uint64(head) {
 						found = true
+						if g.RequestedBlocks == 0 {
+							c.Violate("no-request-after-announcement", "getb-for-zero-blocks", "follower at head %d answered an announcement of %d with a request for zero blocks", head, seq)
+							return
+						}
 					}
 				}
 			}
@@ -454,8 +459,49 @@ func (s *syncSim) give(r *relay, bs []model.Block, label string) {
 	}
 	dup := t.Chance("dup-frame", 1, 10)
 	before := len(r.cp.received)
+	// a disk fault: the first database transaction the follower commits while it handles this message fails
+	// (everything was written, then rolled back).  The block it belonged to is not appended, the node stops at that
+	// block, and its head is what it was - in the database and in whatever the node keeps in memory
+	commitFails := len(bs) > 0 && t.Chance("sync-commit-fails", 1, 12)
+	fired := false
+	if commitFails {
+		dbutil.VerifBeforeCommit = func(db *dbutil.DB, name string) error {
+			if fired || db.Path() != s.f.path {
+				return nil
+			}
+			fired = true
+			return errSimCommit
+		}
+	}
 	s.ns.deliver(r.cp.l, f, cuts)
 	s.ns.pump()
+	dbutil.VerifBeforeCommit = nil
+	if fired {
+		c.Count("fault.io_error_at_commit")
+		c.Logf("relay %s gives %s at head %d while the follower's disk fails one commit", r.cp.name, label, headBefore)
+		got, _, err := s.f.v.HeadBkSeq()
+		if err != nil {
+			sim.Harnessf("HeadBkSeq: %v", err)
+		}
+		// blocks before the failing one may have been appended; the model follows the node up to its database head,
+		// which must be a gap-free prefix of what was given
+		for i := range bs {
+			if bs[i].Head.BkSeq == s.f.m.Head().Head.BkSeq+1 && bs[i].Head.BkSeq <= got {
+				if v := s.f.m.CheckBlock(&bs[i]); v.V == model.Accept {
+					s.f.m.Apply(bs[i])
+				}
+			}
+		}
+		if got != s.f.m.Head().Head.BkSeq {
+			c.Violate("sync-head", "after-failed-commit", "after a GIVB during which one commit failed the follower reports head %d; the blocks it really holds end at %d", got, s.f.m.Head().Head.BkSeq)
+			return
+		}
+		sb, err := s.f.v.GetSignedBlockBySeq(got)
+		if err != nil || sb == nil {
+			c.Violate("sync-head", "head-block-missing-after-failed-commit", "after a failed commit the follower reports head %d but does not hold that block (%v)", got, err)
+		}
+		return
+	}
 	appended, und := s.modelGive(bs)
 	if dup && !r.cp.l.dead {
 		c.Count("fault.duplicate_frame")
